@@ -255,6 +255,11 @@ impl Icept {
                     if torn && verb == V::Write && ev.pre == Some(FState::Absent) {
                         // what a killed local write can leave: the file exists, empty
                         let _ = std::fs::write(&full, b"");
+                        if std::env::var("CV_TORN_PARTIAL").is_ok() {
+                            if let Some(p) = &op.payload {
+                                let _ = std::fs::write(&full, &p[..p.len() / 2]);
+                            }
+                        }
                     }
                     st.frozen = true;
                     st.frozen_at = Some(ev.clone());
